@@ -111,6 +111,33 @@ class Internal(core.Internal):
     pass
 
 
+class LeakedState(Exception):
+    """a group cannot be generated once another (different) group exists in
+    the process, although every layout is generated alone in the self-test:
+    state leaks between sync groups"""
+
+
+def standalone_ok(layout):
+    """does the layout build in a fresh interpreter state?  (run in a
+    forked child so that leaked module state cannot interfere; os.fork
+    because pool workers may not have multiprocessing children)"""
+    import os
+    import sys
+    sys.stdout.flush()
+    pid = os.fork()
+    if pid == 0:
+        rc = 1
+        try:
+            fastsim.reset_globals()
+            build_group(layout, bpfvm.Kernel(), False)
+            rc = 0
+        except BaseException:
+            rc = 1
+        os._exit(rc)
+    _, status = os.waitpid(pid, 0)
+    return os.WIFEXITED(status) and os.WEXITSTATUS(status) == 0
+
+
 # ===================================================================== model
 class Model:
     """one (layout, registered) configuration; executes steps on bytecode"""
@@ -126,7 +153,10 @@ class Model:
         # may leak into the group under test
         self.decoy = build_group("w2r2-mixed" if layout != "w2r2-mixed"
                                  else "w1r2-mixed", self.K, seam)
-        self.group = build_group(layout, self.K, seam)
+        try:
+            self.group = build_group(layout, self.K, seam)
+        except Exception as e:
+            raise LeakedState(repr(e)[:200])
         if registered:
             self.disp.register(self.index, self.group)
         g = self.group
@@ -503,10 +533,25 @@ def apply_event(m, s, ev):
                 tracked = len(q) - 1
                 info["circ"] = True
         info.update(viol=list(viol), ret=ret, tail=tail)
+        # nprog = (dispositions since the last run of the group program,
+        #          saturating at NSAT) + a trailing int: how many of the
+        #          frames since the last run were handed to user space
+        npass = nprog[-1] if nprog and isinstance(nprog[-1], int) else 0
+        nprog = tuple(x for x in nprog if not isinstance(x, int))
         if tail or not m.registered:
             nprog2 = ()
+            npass2 = 0
         else:
-            nprog2 = (nprog + (disposition(info),))[-NSAT:]
+            d_ = disposition(info)
+            nprog2 = (nprog + (d_,))[-NSAT:]
+            npass2 = min(3, npass + (d_ == "PASS"))
+        if m.registered and npass2 == 3 and npass == 2:
+            info["viol"] = info["viol"] + [(
+                "C22", "three frames of a registered group handed to user "
+                "space in a row without its program having run",
+                "at most 2 frames handed to user space between two runs of "
+                "the group program",
+                "a third one: " + ", ".join(nprog2))]
         if m.registered and len(nprog2) > 2 and len(nprog) <= 2:
             info["viol"] = info["viol"] + [(
                 "C22", "more than two consecutive frames of a registered "
@@ -514,7 +559,8 @@ def apply_event(m, s, ev):
                 + ", ".join(nprog2),
                 "at most 2 consecutive passes without the group program",
                 "3 consecutive passes without it: " + ", ".join(nprog2))]
-        return (c2, won2, kleft - j, q, nprog2, tracked), info
+        return (c2, won2, kleft - j, q,
+                nprog2 + ((npass2,) if nprog2 else ()), tracked), info
     raise Internal(f"unknown event {ev!r}")
 
 
@@ -747,8 +793,28 @@ def classify(viol, disp, overtakes):
 def work(item, res):
     prop, layout, registered, K, cap, tier = item
     fastsim.reset_globals()
-    m = Model(layout, registered)
     case0 = dict(layout=layout, registered=registered, K=K)
+    try:
+        m = Model(layout, registered)
+    except LeakedState as e:
+        if not STANDALONE.get(layout, True):
+            # the generator refuses this group even on its own: a rejection,
+            # not a statement about frames
+            res.count("rejected_by_generator")
+            res.outcomes.add("group not generated")
+            return
+        if prop == "C21":
+            res.violation(
+                dict(case0, events=[], check="build-after-decoy"),
+                "a sync group's program does not depend on other groups "
+                "built before it", str(e),
+                sig=core.digest(["leak"]),
+                note="group cannot be generated after another group was "
+                     "built: state leaks between sync groups")
+        res.count("states", 1)
+        res.count("transitions", 1)
+        res.count("evaluations", 1)
+        return
     try:
         if m.gen_note is not None:
             res.cov["dispatcher_built_under_defect_model"] = True
@@ -872,8 +938,14 @@ def configs(ctx, prop):
     return items
 
 
+STANDALONE = {}
+
+
 def run_for(ctx, prop):
     items = configs(ctx, prop)
+    # before any group exists in this process: does each layout build alone?
+    for layout in sorted({i[1] for i in items}):
+        STANDALONE[layout] = standalone_ok(layout)
     res = core.pmap(ctx, work, items, chunk=1)
     res.cov["kernel_available"] = kern.available()
     res.cov["layouts"] = sorted({i[1] for i in items})
